@@ -8,6 +8,11 @@ ids = [p["id"] for p in props]
 HOOK_COMMITS = ["332865e1b", "bf49db00e", "0b99e4fc0", "68bfb6d5a"]
 
 CHECKS = {
+ "C04": dict(
+   level="exploration", design="§4 C04",
+   technique="runtime monitoring: harness-owned deterministic scheduler (controls which partition pipeline is polled next; yields, spurious polls, duplicate wakes) with logical deadlock/divergence verdicts and result invariance; H1 operator-protocol monitors; offline replay of the production scheduler's H2 event log against its 4-flag state machine; cancellation probes",
+   text="33 barrier-bearing query shapes x 4 data sizes x partition counts are run sequentially and then under controlled schedules (7 policies, yields at operator-call granularity, spurious and duplicated wake-ups); a schedule that deadlocks (run queue empty, client unfinished), exceeds the step budget, changes the result, swallows an injected task error or breaks the operator call protocol refutes the property. The same shapes run on the real rayon thread pool with seeded pauses in the schedule/execute windows; every scheduler event is replayed against the state machine (finished task re-run, overlapping executions, idle with pending wake). Cancelled queries must end with an error or their rows. ~2000 distinct schedules and ~160k scheduler events per quick run; exploration, not enumeration.",
+   note="The det executor enumerates orders of operator calls, not machine instructions; sub-lock interleavings are only sampled by the native runs. The wasm runtime twin is not executed. A wall-clock timeout on the native executor is inconclusive."),
  "C02": dict(
    level="exploration", design="§4 C02",
    technique="runtime monitoring: differential oracle over executions (same session, enable_optimizer on vs off) with EXPLAIN VERBOSE diff as coverage monitor; reference model as third voice",
